@@ -143,6 +143,12 @@ def make_context(sc, rep='f64', condition='clean', masked_array_mask=False,
         else:
             ev[int(stars[0][1]) + 2, int(stars[0][0]) - 2] = np.nan
             X.e = np.ma.MaskedArray(ev)
+    # estimator objects configured by the caller (their own sigma clipping)
+    from astropy.stats import SigmaClip as _SC
+    from photutils.background import MedianBackground as _MB
+    from photutils.background import StdBackgroundRMS as _SR
+    X.bkg_est = _MB(sigma_clip=_SC(sigma=2.5, maxiters=4))
+    X.rms_est = _SR(sigma_clip=_SC(sigma=2.5, maxiters=4))
     # size arguments given as arrays (larger than the image on one axis)
     X.box_arr = np.array([13, 500])
     X.fit_box_arr = np.array([5, 99])
@@ -263,6 +269,9 @@ def _entries():
         X.d, (8, X.shape[1]), mask=X.m, filter_size=1, exclude_percentile=60.0)
     E['Background2D_thin_boxes'] = lambda X: Background2D(
         X.d, (1, 9), mask=X.m, filter_size=1, exclude_percentile=60.0)
+    E['Background2D_estimators'] = lambda X: Background2D(
+        X.d, (11, 13), mask=X.m, bkg_estimator=X.bkg_est,
+        bkgrms_estimator=X.rms_est, filter_size=1, exclude_percentile=60.0)
     E['Background2D_array_box'] = lambda X: Background2D(
         X.d, X.box_arr, mask=X.m, filter_size=np.array([1, 3]),
         exclude_percentile=60.0)
